@@ -5,6 +5,7 @@ import (
 	"go/token"
 	"go/types"
 	"regexp"
+	"strings"
 
 	"golang.org/x/tools/go/ssa"
 )
@@ -66,6 +67,7 @@ var inertRe = []*regexp.Regexp{
 	regexp.MustCompile(`^math(/bits)?\.`),
 	regexp.MustCompile(`^github\.com/couchbase/sync_gateway/base\.(HTTPErrorf|RedactErrorf|IsDocNotFoundError|IsCasMismatch|IsTemporaryKvError|ErrorAsHTTPStatus|IsTimeoutError)$`),
 	regexp.MustCompile(`^github\.com/google/uuid\.`),
+	regexp.MustCompile(`^\.error\.Error$`),
 	regexp.MustCompile(`^sync/atomic\.`), // modelled explicitly where the address is a field; otherwise treated below
 }
 
@@ -142,6 +144,17 @@ func (ex *Exec) callCommon(st *State, instr ssa.CallInstruction, c *ssa.CallComm
 		ex.callAsserts(st, rec, "before")
 	}
 	con := ex.P.Contracts[key]
+	if con != nil && ex.c != nil && len(ex.c.OnlyContracts) > 0 && !con.Pure {
+		keep := false
+		for _, n := range ex.c.OnlyContracts {
+			if n == short || strings.HasSuffix(key, "."+n) {
+				keep = true
+			}
+		}
+		if !keep {
+			con = nil // path contract on a large function: other callees are treated as having no contract
+		}
+	}
 	var results []string
 	if key == "sort.Slice" && !ex.pureMode {
 		if ex.sortSlice(st, c, rec) {
